@@ -16,6 +16,100 @@ COMMON_NOTE = ('Trusted: Coq 8.16.1 kernel; no axioms (Print Assumptions checked
                'ExtrOcamlBasic extraction cross-checked by vm_compute on a sub-sample; the correspondence harness. '
                'Modelled, not verified: std collections and str methods by documented contract. ')
 
+PER_GRAMMAR = ('For all grammars the link "generate accepts => the emitted tables satisfy the validator" is NOT proved (builder '
+               'invariants); it is established per sampled grammar by running the validator inside Coq on the tables read back '
+               'from the real emitted text, so the theorems hold for all inputs of those grammars. ')
+
+claim('C01',
+      'Coq theorems (LR/Complete.v, Sound.v, Payload.v, ValidateProofs.v): for any tables + item annotation + FIRST table passing '
+      'the boolean validator, any payload type and any token sequence, the emitted driver loop never panics, returns Ok only with a '
+      'derivation tree of the start symbol whose yield is the input, accepts every sentence within size+1 iterations, and acceptance '
+      'depends only on token kinds. ' + PER_GRAMMAR + 'The real emitted parsers are compiled and run against the Coq driver, an Earley '
+      'recogniser and a brute-force canonical LR(1) parser.',
+      COMMON_NOTE + 'rustc\'s reading of the driver text is compared, not proved. Termination on non-sentences is not proved.',
+      'Coq proof (CPS induction on derivations; stack invariant) + validator run in Coq on real tables + differential execution of compiled parsers',
+      'DESIGN.md §4.5, §5 C01')
+claim('C02',
+      'Coq theorems: for validated tables the value returned on acceptance is a derivation tree (every node an instance of its '
+      'production with children in declaration order) whose leaves are the input token objects in order (yield t = w), and derivations '
+      'are unique. ' + PER_GRAMMAR + 'Projection to the user types (dropping `_` fields, Box) is compared on compiled parsers via derive(Debug) output.',
+      COMMON_NOTE + 'The projection performed by the emitted reduce functions is modelled (Emit/Parser.v) and compared, not proved.',
+      'Coq proof (soundness invariant yields(stack)++rest = input; uniqueness from strong completeness) + compiled-parser differential',
+      'DESIGN.md §5 C02')
+claim('C03',
+      'Coq theorems (LR/ErrPos.v): a rejection returns the head of the unconsumed input (the original token object, or None at the end), '
+      'the source iterator was pulled exactly consumed+1 times, and no sentence starts with consumed ++ [that token] (lockstep lemma + '
+      'strong completeness). Not proved: that the consumed prefix itself is viable (index not too early); decided per input by Earley / '
+      'canonical LR(1) oracles on compiled parsers with a counting iterator. ' + PER_GRAMMAR,
+      COMMON_NOTE + 'Peekable/Chain modelled by documented behaviour.',
+      'Coq proof (one-token-lookahead lockstep, fuel monotonicity, completeness) + compiled-parser differential with pull counter',
+      'DESIGN.md §5 C03')
+claim('C04',
+      'Coq theorems: the table stage of the model can fail only with a genuine conflict of the automaton it was given; tables passing the '
+      'validator belong to an unambiguous grammar. Exactness (Ok iff the LALR(1) automaton defined from canonical LR(1) item sets is '
+      'conflict-free) is not proved; it is decided per grammar by comparing the crate and the model with a brute-force '
+      'canonical-LR(1)-then-merge reference on generated and textbook grammars.',
+      COMMON_NOTE, 'Coq proof (builder-table invariant) + differential against brute-force LALR(1) reference', 'DESIGN.md §5 C04')
+claim('C05',
+      'Coq theorem: the twelve generated helper identifiers are pairwise distinct and differ from all user identifiers. rustc acceptance of '
+      'the real output is checked on adversarially named grammars with trait-less payload types (cargo check).',
+      COMMON_NOTE + 'Rust name resolution is not modelled. Known finding K1.',
+      'Coq proof (freshness of generated names) + rustc type-check of real output', 'DESIGN.md §5 C05')
+claim('C06',
+      'Coq theorems on the emitter model (unit-like fieldsets, definition headers) + token-exact comparison of the real type definitions with '
+      'the shapes expected from the declarations + a rustc-checked client using every declared item and the parse signature from outside the module.',
+      COMMON_NOTE, 'Coq proof (emitter lemmas) + expected-item oracle + rustc client', 'DESIGN.md §5 C06')
+claim('C07',
+      'Coq theorems: the front-end parse loop over the tables regenerated from parser.rs never panics for any token sequence; the table stage '
+      'fails only with a conflict. Totality of the whole pipeline is not proved: every unwrap/index/slice is an explicit Panic in the model and '
+      'the crate is run on malformed/unusual/large inputs under catch_unwind and in watchdog-guarded child processes, results equal to the model.',
+      COMMON_NOTE + 'Host stack depth and wall-clock time are sampled only.',
+      'Coq proof (validated tables => no panic) + differential fuzzing with panic/abort/hang detection', 'DESIGN.md §5 C07')
+claim('C08',
+      'Coq theorems: single-step lexical facts of the tokenizer model. The full statement tokenize = maximal-munch specification is decided '
+      'per input: crate tokens (hook) = independent lexical specification = model on generated, soup and mutated texts.',
+      COMMON_NOTE, 'Coq proof (tokenizer step lemmas) + three-way differential with executable lexical specification', 'DESIGN.md §5 C08')
+claim('C09',
+      'Coq theorems, unconditional: the tables/rules/reduce shapes read from parser.rs and parser.kiki on every run pass the validator by '
+      'vm_compute and equal the hand-written grammar of record; hence for every token sequence the front end never panics, accepts exactly '
+      'the sentences of the published grammar, and a rejection is not too late. Exact error spans and "not too early" are decided per input '
+      'by an Earley oracle over an independently written grammar and the lexical specification.',
+      COMMON_NOTE + 'cst_to_ast is modelled together with the reduce functions (Front/Cst2Ast.v) and compared.',
+      'Translation (tables regenerated from parser.rs) + Coq validator by vm_compute + Tier A theorems', 'DESIGN.md §5 C09')
+claim('C10',
+      'Coq theorem: validate_ast f = Ok v implies WF f (the property\'s conjunction, stated on the AST) and the validated file is the input. '
+      'Truthfulness of errors is decided per input by an oracle written against the property text on the token stream.',
+      COMMON_NOTE, 'Coq proof (induction over declarations; seen-table invariants) + differential with violation-injecting generator', 'DESIGN.md §5 C10')
+claim('C11',
+      'Coq theorem: a TableConflict of the model names a state of the machine, two items of it demanding different actions on one lookahead, '
+      'and attaches the given file and machine. That the machine is the LALR(1) automaton is decided per grammar against the brute-force reference.',
+      COMMON_NOTE, 'Coq proof (builder-table invariant) + differential + brute-force LALR(1) isomorphism', 'DESIGN.md §5 C11')
+claim('C12',
+      'Coq theorems: attributes are emitted verbatim, one per line, immediately before their type definition. Byte-exactness and "nowhere else" '
+      'on the real output are decided by an oracle on the emitted text.',
+      COMMON_NOTE, 'Coq proof (emitter decomposition lemmas) + oracle on real output', 'DESIGN.md §5 C12')
+claim('C13',
+      'Coq theorem: the type text stored per terminal is type_to_string of the declared type; all use sites print it. Re-tokenisation of every '
+      'type position of the real output against the declaration is done by the check.',
+      COMMON_NOTE, 'Coq proof + re-tokenisation oracle on real output', 'DESIGN.md §5 C13')
+claim('C14',
+      'Coq theorem: the automaton is independent of the hash iteration order of the transition set. The table-fill site is exercised with both '
+      'orders in the model; the crate is run 3x in-process (one on a fresh thread) and in child processes with identical results required.',
+      COMMON_NOTE + 'That the model lists all hash-iteration sites is by inspection.',
+      'Coq proof (order-independence of from_iter) + repeated-run differential', 'DESIGN.md §5 C14')
+claim('C15',
+      'Coq theorems: for the template regenerated on this run, get_grammar_hash(emitted text) = the embedded digest; the line-wise specification '
+      'of get_grammar_hash. Digest = SHA-256(source) checked with hashlib on every case.',
+      COMMON_NOTE + 'SHA-256 collision resistance is assumed for the freshness conclusion.',
+      'Coq proof (lines/strip_prefix lemmas; template shape by vm_compute) + differential', 'DESIGN.md §5 C15')
+claim('C16',
+      'Coq theorems: whitespace runs and comments between tokens leave the tokenizer state untouched. Invariance of the whole result is decided '
+      'per pair (source, random re-layout) on the crate, modulo hash line / position map.',
+      COMMON_NOTE, 'Coq proof (tokenizer skip lemmas) + metamorphic differential', 'DESIGN.md §5 C16')
+claim('C17',
+      'Coq theorems: for validated tables every non-error cell is demanded by an item and every demand/transition of an item is in the table. '
+      'Exactness w.r.t. the canonical LALR(1) lookahead sets is decided per grammar: tables read from the real text = model = brute-force reference.',
+      COMMON_NOTE, 'Coq validator on real tables + differential against brute-force LALR(1) reference', 'DESIGN.md §5 C17')
 claim('C18',
       'Coq theorems over the executable model of Oset (insert/contains/from_iter/extend as sorted-list functions): for every '
       'operation sequence and every element type with a lawful total order the set is strictly increasing, holds exactly the '
